@@ -205,6 +205,9 @@ def _trace_printf_count(F):
     out = {"digits": (False, "missing"), "fixed-text": (False, "missing")}
     if not fn or not fn.get("thir"):
         return False, out
+    byc = _printed_line_length(F, fn, path)
+    if byc is not None:
+        return True, {"digits": (True, byc), "fixed-text": (True, byc)}
     tmpl = None
     for n in walk(fn["thir"]["body"]):
         if n.get("k") == "call" and n.get("snip") and "println" in (n.get("snip") or "")[:12]:
@@ -275,6 +278,54 @@ def _trace_printf_count(F):
     okt = fixed_seen == {fixed}
     out["fixed-text"] = (okt, {"template": tmpl, "length of the fixed text": fixed, "constant in the returned sum": sorted(fixed_seen)})
     return okd and okt, out
+
+
+def _printed_line_length(F, fn, path):
+    """the by-construction idiom: `let line = format!(<template whose holes are {argN:#x}>); print!("{line}"); line.len() as u64`.
+    The count returned is the length of the very String that is printed, so no digit arithmetic is needed.  Accepted only
+    when the line is bound once, never mutated, written by exactly one `print!` whose template is the single hole (no
+    extra text, no newline of its own) and the function's value on its only path is String::len of that binding.
+    None when the function is not of this form (the general evaluation then decides)."""
+    body = strip(fn["thir"]["body"])
+    if body.get("k") != "block" or not body.get("tail"):
+        return None
+    lets = [st for st in body["stmts"] if st["k"] == "let"]
+    exprs = [st for st in body["stmts"] if st["k"] != "let"]
+    if len(lets) != 1 or len(exprs) != 1 or body["stmts"][0] is not lets[0]:
+        return None
+    let = lets[0]
+    if let["pat"].get("k") != "bind" or let["pat"].get("ty") != "std::string::String" or "Not)" not in (let["pat"].get("mode") or ""):
+        return None
+    lid, lname = let["pat"]["id"], let["pat"].get("name")
+    init = let.get("init") or {}
+    snip = (strip(init).get("snip") or init.get("snip") or "")
+    m = symex._FMT_RE.match(snip)
+    if not (m and snip.lstrip().startswith("format!")):
+        return None
+    tmpl = m.group(1)
+    pnames = [q["pat"]["name"] for q in fn["thir"]["params"] if q["pat"] and q["pat"].get("k") == "bind"]
+    holes = re.findall(r"\{([^{}]*)\}", tmpl)
+    if not holes or any(not re.fullmatch(r"(\w+):#x", h) or h.split(":")[0] not in pnames for h in holes):
+        return None
+    if any(n.get("k") in ("return", "loop", "if", "match", "assign", "assignop") for n in walk(body) ):
+        return None
+    uses = [n for n in walk(body) if n.get("k") == "var" and n.get("id") == lid]
+    prints = [n for n in walk(body) if n.get("k") == "call" and (callee_path(n) or "").endswith("io::_print")]
+    if len(prints) != 1 or len(uses) != 2:
+        return None
+    pm = re.match(r'^\s*(?:\w+::)*print!\s*\(\s*"((?:[^"\\\\]|\\\\.)*)"\s*(?:,\s*(\w+)\s*)?\)\s*$', prints[0].get("snip") or "", re.S)
+    if not pm or not ((pm.group(1) == "{%s}" % lname and pm.group(2) is None) or (pm.group(1) == "{}" and pm.group(2) == lname)):
+        return None
+    if not any(n is u for u in uses for n in walk(prints[0])):
+        return None
+    tail = strip(body["tail"])
+    if tail.get("k") == "cast" and tail.get("ty") == "u64":
+        tail = strip(tail["e"])
+    if not (tail.get("k") == "call" and (callee_path(tail) or "").endswith("string::String::len")):
+        return None
+    if not any(n is u for u in uses for n in walk(tail)):
+        return None
+    return {"form": "returns String::len of the formatted line that the single print! writes", "template": tmpl, "holes": holes}
 
 
 def _digit_loop(F, ev, path):
